@@ -422,15 +422,15 @@ def rule_writer_refusal(ck: Check, repo: Repo, rid: str = "R8") -> None:
     class H(Hooks):
         def atom(self, text, node, it):
             if text == "cls.can_handle_multi()":
-                return "can_multi"
+                return "@can_multi"
             if re.fullmatch(r"cls\.MULTI_LINE\.end in (text|line)", text):
-                return "terminator_in_text"
+                return "@terminator_in_text"
             return None
 
     def ref(v):
-        if not v("can_multi"):
+        if not v("@can_multi"):
             return "raise"
-        if v("terminator_in_text"):
+        if v("@terminator_in_text"):
             return "raise"
         return "return"
 
@@ -438,7 +438,7 @@ def rule_writer_refusal(ck: Check, repo: Repo, rid: str = "R8") -> None:
     r.floor(3, "paths through _create_comment_multi", got=len(leaves))
     seen = set()
     for d, leaf, exp in leaves:
-        short = {k.split("::")[-1]: v for k, v in d.items() if k.split("::")[-1] in ("can_multi", "terminator_in_text") or k.split("::")[-1].startswith("?")}
+        short = {k.split("::")[-1]: v for k, v in d.items() if k.split("::")[-1] in ("@can_multi", "@terminator_in_text") or k.split("::")[-1].startswith("?")}
         got = leaf.outcome[0]
         key = (tuple(sorted(short.items())), got)
         if key in seen:
